@@ -40,6 +40,21 @@ DATA_PARAMS = ("hvsr", "srecords", "srecord", "records")
 
 def run(ck: Checker, prog: Program, tier: str):
     eng = engine(prog)
+    funcs = _read_only(ck, prog)
+    _r3(ck, prog)
+    _r4(ck, prog)
+    ck.guard(_option_forwarding, ck, prog, funcs)
+    # the mean-curve peak that is drawn and tabulated is searched inside the object's search range (rule of C08)
+    from . import c08
+    with ck.borrow(c08, "C20.R3+"):
+        ck.guard(c08._r3, ck, prog)
+    ck.extra["calls_resolved"] = eng.calls_resolved
+    ck.extra["externals_assumed_pure"] = dict(eng.assumed_pure)
+
+
+def _read_only(ck: Checker, prog: Program):
+    """R1 / R2 over every function of postprocessing.py; returns the functions."""
+    eng = engine(prog)
     mod = prog.module("postprocessing")
     funcs = [f for f in prog.funcs.values() if f.module is mod and f.cls is None and f.kind == "function"]
     ck.floor("C20.R1", len(funcs), 15, "functions in postprocessing.py")
@@ -66,11 +81,7 @@ def run(ck: Checker, prog: Program, tier: str):
             ck.violation("C20.R1", func, text,
                          f"{f.qualname} changes the object it displays: {describe_effect(e)}",
                          loc=e.chain[0].loc, path=chain_text(e))
-    _r3(ck, prog)
-    _r4(ck, prog)
-    ck.guard(_option_forwarding, ck, prog, funcs)
-    ck.extra["calls_resolved"] = eng.calls_resolved
-    ck.extra["externals_assumed_pure"] = dict(eng.assumed_pure)
+    return funcs
 
 
 # --------------------------------------------------------------------------- R2
